@@ -9,10 +9,10 @@ git checkout -q -- . ; git clean -fdq
 export CARGO_NET_OFFLINE=true
 {
 echo "== apply patch + demo"; git apply $out/patch.diff && git apply $out/demo.diff || { echo APPLY-FAILED; exit 1; }
-echo "== demo WITH patch (expect FAIL)"; cargo test -p $crate --offline --lib -- "$filter" 2>&1 | tail -15
-echo "== existing tests WITH patch (expect ok apart from the demo)"; cargo test -p $crate --offline --lib -- --test-threads 6 --skip "$filter" 2>&1 | grep -E "^test result|FAILED|failed|panicked" | head -20
+echo "== demo WITH patch (expect FAIL)"; cargo test -p $crate --offline ${TESTKIND:---lib} -- "$filter" 2>&1 | tail -15
+echo "== existing tests WITH patch (expect ok apart from the demo)"; cargo test -p $crate --offline ${SUITEKIND:---lib} -- --test-threads 6 --skip "$filter" 2>&1 | grep -E "^test result|FAILED|failed|panicked" | head -20
 echo "== revert patch, keep demo"; git apply -R $out/patch.diff
-echo "== demo WITHOUT patch (expect ok)"; cargo test -p $crate --offline --lib -- "$filter" 2>&1 | tail -6
+echo "== demo WITHOUT patch (expect ok)"; cargo test -p $crate --offline ${TESTKIND:---lib} -- "$filter" 2>&1 | tail -6
 git checkout -q -- . ; git clean -fdq
 echo "== done"
 } > $log 2>&1
